@@ -23,7 +23,7 @@ try:
         results[p] = {"exit": rc, "wall_s": round(time.time() - t0, 1), "lines": [l[:300] for l in lines[:8]]}
         print(p, "exit", rc); print("\n".join(l[:260] for l in lines[:6]))
 finally:
-    sh("git -C /repo checkout -- .")
+    sh("git -C /repo checkout -- . && git -C /repo clean -fdq")
     for p, t in EVBAK.items():  # evidence must describe the unchanged tree, not the seeded change
         open('/verif/evidence/%s.json' % p, 'w').write(t)
 meta["checks_run"] = results
